@@ -182,24 +182,55 @@ type C06History struct {
 	Path []string
 }
 
+// C06Skipped lists the scenarios that could not contribute histories (see C06Histories).
+var C06Skipped []string
+
 // C06Histories: every path of the mix scenario's search tree up to the suffix bound, each extended by two
 // one-day blocks (so that it ends in a reward block), plus search-tree paths of the other properties' scenarios.
 func C06Histories(tier string) []C06History {
 	var out []C06History
 	depth, k, other := 2, 400, 25
 	if tier == "thorough" {
-		depth, k, other = 3, 6000, 300
+		depth, k, other = 3, 7500, 300
 	}
-	for _, p := range mc.TreePaths(C06Mix{}, depth, k) {
+	// every sequence of templates up to the suffix depth - not only the search-tree paths: a transaction that leaves the
+	// stored state unchanged (a rejected proof, say) may still leave something in the process
+	var seqs [][]string
+	// breadth first: all of length 1 before length 2, ...
+	for d := 0; d <= depth; d++ {
+		var level func(cur []string)
+		level = func(cur []string) {
+			if len(cur) == d {
+				if len(seqs) < k {
+					seqs = append(seqs, append([]string{}, cur...))
+				}
+				return
+			}
+			for _, t := range c06Templates {
+				level(append(append([]string{}, cur...), t))
+			}
+		}
+		level(nil)
+	}
+	for _, p := range seqs {
 		out = append(out, C06History{C06Mix{}, append(append([]string{}, p...), "NextBlock", "NextBlock")})
 	}
 	for _, sc := range []mc.Scenario{C17{}, C01{}, RNS{Prop: "C09"}, C10{}, C18{}, C14{Size: 3, Min: 2}, C07{}} {
-		paths := mc.TreePaths(sc, 4, other)
-		for i, p := range paths {
-			if i%3 == 0 || len(p) >= 3 { // prefer the deeper ones
-				out = append(out, C06History{sc, p})
+		func() {
+			// a scenario whose own set-up assertions fail on the tree under check contributes no histories (its own
+			// property's check reports why); the determinism check goes on with the others
+			defer func() {
+				if r := recover(); r != nil {
+					C06Skipped = append(C06Skipped, fmt.Sprintf("%s: %v", sc.Name(), r))
+				}
+			}()
+			paths := mc.TreePaths(sc, 4, other)
+			for i, p := range paths {
+				if i%3 == 0 || len(p) >= 3 { // prefer the deeper ones
+					out = append(out, C06History{sc, p})
+				}
 			}
-		}
+		}()
 	}
 	return out
 }
